@@ -535,8 +535,7 @@ EXPORT errno_t _wcsnorm_decompose_s_chk(wchar_t *restrict dest, rsize_t dmax,
         invoke_safe_str_constraint_handler("wcsnorm_s: "
                                            "dmax is 0",
                                            dest, ESZEROL);
-        *dest = 0;
-        return RCNEGATE(ESZEROL);
+        return RCNEGATE(ESZEROL); /* no element of dest may be stored */
     }
     if (unlikely(dmax < 5)) {
         invoke_safe_str_constraint_handler("wcsnorm_s: "
@@ -760,6 +759,12 @@ EXPORT errno_t _wcsnorm_reorder_s_chk(wchar_t *restrict dest, rsize_t dmax,
     wchar_t *orig_dest = dest;
     rsize_t orig_dmax = dmax;
 
+    if (unlikely(dmax == 0)) {
+        invoke_safe_str_constraint_handler("wcsnorm_reorder_s: "
+                                           "dmax is 0",
+                                           dest, ESZEROL);
+        return RCNEGATE(ESZEROL);
+    }
     if (destbos == BOS_UNKNOWN) {
         CHK_DMAX_MAX("wcsnorm_reorder_s", RSIZE_MAX_WSTR)
         BND_CHK_PTR_BOUNDS(dest, dmax * sizeof(wchar_t));
@@ -929,6 +934,13 @@ EXPORT errno_t _wcsnorm_compose_s_chk(wchar_t *restrict dest, rsize_t dmax,
         handle_werror(dest, destbos / sizeof(wchar_t),
                       "wcsnorm_compose_s: lenp is null", ESNULLP);
         return RCNEGATE(ESNULLP);
+    }
+    if (unlikely(dmax == 0)) {
+        *lenp = 0;
+        invoke_safe_str_constraint_handler("wcsnorm_compose_s: "
+                                           "dmax is 0",
+                                           dest, ESZEROL);
+        return RCNEGATE(ESZEROL);
     }
     if (destbos == BOS_UNKNOWN) {
         if (unlikely(dmax > RSIZE_MAX_WSTR)) {
